@@ -5,10 +5,23 @@ Cases (all JSON):
          "t": m, "base": [ch, sh] | None, "n": register width}
   sum   {"terms": [{"ops","coeff","ctype"},…], "t": m, "steps": k, "base", "n"}
   deriv sum + {"obs": Gaussian-integer matrix, "psi": Gaussian-integer vector}
-  seq   {"rep": circuit, "diff": circuit, "length", "position"}   (_generate_circuit_sequence)
+  seq   {"rep": circuit, "diff": circuit, "length", "position", "alias"}   (_generate_circuit_sequence, called twice)
+  hist  {"calls": [term | sum | deriv case, …]}: ONE history executed on shared long-lived objects (see below)
 The time given to the real code is  m·τ  with τ = 2·atan2(sh, ch) for a rational point (ch, sh) of the unit circle
 (τ = 1 when base is None): the model computes every gate angle exactly as a·τ + b·π and, when all a are integers,
 the circuit's matrix exactly in ℚ(ζ₈).
+
+Optional components of term / sum / deriv cases (absent = the plain behaviour):
+  "ttype"   how the time is handed over: "float" | "int" | "npfloat" | "npint" | "sympy" (sympy.Rational) |
+            "symbol" (sympy.Symbol; the circuit is bound to the value afterwards: 'any time t' for a symbolic t)
+  "active"  sorted qubit list: matrices are taken on these qubits only (a circuit touching only S acts as the identity
+            elsewhere), which makes terms on qubits >= 8 / two-digit indices affordable; "n" is then max index + 1
+  "tseq"    "list" | "tuple": the Sequence type handed to PauliSum;   "as_term": the PauliTerm itself is the Hamiltonian
+  hist only: a term carries "key" (identity of the PauliTerm object: the same key = the SAME object, whose public
+            attribute `coefficient` is reassigned when the listed coefficient changed), a sum / deriv call carries
+            "hkey" (identity of the PauliSum object) and "hmut" ("assign": ham.terms = [...], "inplace":
+            ham.terms[:] = [...]) when its listing changed, and "mut": how the RETURNED objects are modified by the
+            caller after the call (a returned value belongs to the caller; later calls must not be affected).
 """
 import math
 import warnings
@@ -19,10 +32,17 @@ from ..common import rat, unrat
 
 PROP = "C16"
 RULE = ("exhaustive Pauli strings on <=3 qubits + random strings on <=5 (thorough 6) qubits at rational-circle times; "
-        "Hamiltonians with 1-4 terms (constant / duplicate / zero / complex coefficients included), steps 1-4; derivative "
-        "cases with random Gaussian-integer observables and states; malformed stream: imaginary coefficients, zero "
-        "coefficients, position >= length. Non-trivial: a term of weight >= 2 containing X or Y (term cases), and "
-        "additionally n_steps >= 2 (sum / derivative cases); distinct = distinct canonical JSON of the case")
+        "terms on qubits up to 13 (two-digit indices, matrices on the touched qubits); coefficient x time of magnitudes "
+        "2^-45 x 2^45; times given as float / int / numpy / sympy numbers and as a sympy Symbol bound afterwards; "
+        "Hamiltonians with 0-14 terms (constant / duplicate (adjacent and non-adjacent) / zero / complex / tiny "
+        "coefficients included; list, tuple or a bare PauliTerm), steps 1-9; derivative "
+        "cases with random Gaussian-integer observables and states; HISTORIES of 3-7 calls on the same PauliTerm / "
+        "PauliSum objects in which consecutive calls differ in one component (time incl. hash-equal -1/-2, steps, a "
+        "coefficient nudged by 2^-23 / negated / made complex, order, added / dropped term) and returned circuits / "
+        "factor lists are modified by the caller in between; malformed stream: imaginary coefficients (also next to "
+        "real parts up to 2^20), zero coefficients, position >= length. Non-trivial: a term of weight >= 2 containing "
+        "X or Y (term cases), additionally n_steps >= 2 (sum / derivative cases), >= 2 such calls (histories); "
+        "distinct = distinct canonical JSON of the case")
 TRUSTED = [
     "gate angles: the ring-level theorems take the interpretation `ang : T -> Ang R` of an angle as its half-angle point as a "
     "PARAMETER whose only assumed law is ang(np.pi/2) = (1/sqrt2, 1/sqrt2); the statements over C (exp form, HasDerivAt) "
@@ -32,17 +52,24 @@ TRUSTED = [
     "abs(x) > 1e-9 on doubles is the model's exact rational comparison |x| > 10^-9 (inputs are not placed within one ulp of the threshold)",
     "'gate M on qubits qs of an n-qubit register' is OQ.Spec.lift; the identification of GateOperation.lifted_matrix / "
     "Lift.liftMatrix with Spec.lift is property C01 (here: exact comparison of the model's Lift.toUnitary matrix with the "
-    "product of the real lifted matrices)",
+    "product of the real lifted matrices); a circuit that touches only the qubits S is the identity on the others, so "
+    "for terms on high qubit indices the matrices are taken on the touched qubits (gate re-applied to their ranks)",
     "Dagger(g).matrix is the conjugate transpose of g.matrix (sympy Matrix.adjoint); H and CNOT are flagged hermitian, so "
     "Circuit.inverse() reuses them (model: GateK.dagger)",
     "sorted(set of ints) is ascending; dict lookup term[q] returns the operator stored for q (model: insertion sort, Term.opAt)",
-    "scipy.linalg.expm (oracle only) is accurate to 1e-10 on 2^n x 2^n generators of norm <= 150, n <= 6",
+    "scipy.linalg.expm (oracle only) is accurate to 1e-10 on 2^n x 2^n generators of norm <= 150, n <= 6; the oracle "
+    "additionally uses exp(-i a P) = cos(a) 1 - i sin(a) P for a Pauli string P (P^2 = 1; theorem exp_pauli) with the tight "
+    "tolerance 1e-11 (1 + |a|): four orders of magnitude above the float noise measured on the unchanged code (2e-15)",
+    "Circuit.bind (used to give a symbolic time its value) substitutes the symbol in every gate parameter (property C06)",
 ]
 ASSUMPTIONS = ["PauliTerm._ops has distinct keys and no identity entries (dict invariant established by the constructor)",
-               "n_steps >= 1 is a Python int; coefficients are Python int/float/complex (not numpy scalars or sympy expressions)"]
+               "n_steps >= 1 is a Python int; coefficients are Python int/float/complex (not numpy scalars or sympy expressions); "
+               "the time is a Python / numpy / sympy real number or (term and sum only) a sympy Symbol",
+               "PauliTerm.coefficient and PauliSum.terms are public attributes: a caller may reassign them between calls"]
 
 H_FD = 1e-3
 PAULIS = "XYZ"
+TIGHT = 1e-11
 
 
 # ------------------------------------------------------------------------------------------------ real objects
@@ -67,11 +94,54 @@ def _coeff(t):
         return int(re)
     if ct == "complex":
         return complex(float(re), float(im))
+    if ct == "npfloat":
+        import numpy as np
+        return np.float64(float(re))
+    if ct == "npcomplex":
+        import numpy as np
+        return np.complex128(complex(float(re), float(im)))
     return float(re)
 
 
 def _term(PauliTerm, t):
     return PauliTerm({int(q): p for q, p in t["ops"]}, _coeff(t))
+
+
+def _time_arg(c):
+    """(object handed to the real code as `time`, the real number it stands for, the symbol to bind or None)"""
+    import numpy as np
+    import sympy
+    v = float(unrat(c["t"])) * _tau(c.get("base"))
+    tt = c.get("ttype", "float")
+    if tt == "float":
+        return v, v, None
+    f = unrat(c["t"])
+    if tt == "npfloat":
+        return np.float64(v), v, None
+    if tt == "symbol":
+        # "sym": name of the symbol ("dummy:x" = sympy.Dummy("x")); "sym_form": the time is s, 2*s or s + 1
+        name = c.get("sym", "t")
+        s = sympy.Dummy(name[6:]) if name.startswith("dummy:") else sympy.Symbol(name)
+        form = c.get("sym_form", "s")
+        if form == "2*s":
+            return 2 * s, v, (s, v / 2)
+        if form == "s+1":
+            return s + 1, v, (s, v - 1)
+        return s, v, (s, v)
+    assert c.get("base") is None, "exact number types need tau = 1"
+    if tt == "int":
+        assert f.denominator == 1
+        return int(f), v, None
+    if tt == "npint":
+        assert f.denominator == 1
+        return np.int64(int(f)), v, None
+    if tt == "sympy":
+        return sympy.Rational(f.numerator, f.denominator), v, None
+    raise AssertionError("unknown ttype " + tt)
+
+
+def _bound(circ, sym, v):
+    return circ if sym is None else circ.bind({sym[0]: sym[1]})
 
 
 def _canon_circuit(c):
@@ -82,21 +152,51 @@ def _canon_circuit(c):
     return out
 
 
-class _Lifter:
-    """matrix of a circuit on n qubits = product of the REAL lifted matrices of its operations (last operation leftmost);
-    lifted matrices are cached per distinct operation (to_unitary itself recomputes them each time)"""
+def _touched(circuits):
+    s = set()
+    for c in circuits:
+        for op in c.operations:
+            s.update(int(q) for q in op.qubit_indices)
+    return s
 
-    def __init__(self, n):
-        self.n, self.cache = n, {}
+
+def _active(c, circuits=()):
+    """the qubits the matrices of this case live on: range(n), or the listed ones, plus whatever a circuit touches"""
+    base = list(c["active"]) if c.get("active") is not None else list(range(c["n"]))
+    act = sorted(set(base) | _touched(circuits))
+    if len(act) > 9:
+        raise AssertionError(f"circuits touch {len(act)} qubits: {act}")
+    return act
+
+
+class _Lifter:
+    """matrix of a circuit on the active qubits = product of the REAL lifted matrices of its operations (last operation
+    leftmost); lifted matrices are cached per distinct operation (to_unitary itself recomputes them each time).
+    When the active qubits are 0..k-1 the operations are used as they are, otherwise the gate is applied to the ranks."""
+
+    def __init__(self, active):
+        self.rank = {q: i for i, q in enumerate(active)}
+        self.k, self.cache = len(active), {}
+        self.identity = all(q == i for q, i in self.rank.items())
+        self.matrix_error = None
 
     def unitary(self, circuit):
         import numpy as np
-        u = np.eye(2 ** self.n, dtype=complex)
+        from .. import circ as _circ
+        u = np.eye(2 ** self.k, dtype=complex)
         for op in circuit.operations:
             key = (op.gate.name, tuple(float(p) for p in op.gate.params), tuple(op.qubit_indices))
             m = self.cache.get(key)
             if m is None:
-                m = np.array(op.lifted_matrix(self.n), dtype=complex)
+                o = op if self.identity else op.gate(*[self.rank[int(q)] for q in op.qubit_indices])
+                try:
+                    m = _circ.impl_matrix_to_numpy(o.lifted_matrix(self.k))
+                except (ValueError, TypeError) as e:
+                    # the gate as built by the code under test has no matrix (seen: numpy-scalar parameters under
+                    # numpy 2 / sympy 1.9); recorded, and the same gate with Python-float parameters is used instead
+                    self.matrix_error = self.matrix_error or f"{op}.lifted_matrix raised {type(e).__name__}: {str(e)[:120]}"
+                    o = o.replace_params(tuple(float(x) for x in o.params))
+                    m = _circ.impl_matrix_to_numpy(o.lifted_matrix(self.k))
                 self.cache[key] = m
             u = m @ u
         return u
@@ -121,9 +221,207 @@ def _expect(o, u, psi):
     return complex(v.conj() @ (o @ v))
 
 
+MAX_OPS = 50000          # the largest circuit a generated case legitimately produces has about 2500 operations
+
+
+class _CallTimeout(Exception):
+    pass
+
+
+class _guard:
+    """around ONE call into the code under test: a change that makes a call explode (a list doubling per step, an endless
+    loop) must end as an exception of that call - which the oracle reports with the input - not as a killed check.
+    Address space is capped at 4 GiB above the current size (-> MemoryError) and the call's CPU time at 60 s."""
+
+    def __enter__(self):
+        import resource
+        import signal
+        self.res = self.sig = None
+        try:
+            vm = int(open("/proc/self/statm").read().split()[0]) * resource.getpagesize()
+            self.old = resource.getrlimit(resource.RLIMIT_AS)
+            cap = vm + 4 * 2 ** 30
+            if self.old[1] != resource.RLIM_INFINITY:
+                cap = min(cap, self.old[1])
+            resource.setrlimit(resource.RLIMIT_AS, (cap, self.old[1]))
+            self.res = resource
+        except (OSError, ValueError):
+            self.res = None
+        try:
+            def on_timer(signum, frame):
+                raise _CallTimeout("one call into the library used more than 60 s of CPU time")
+            self.prev = signal.signal(signal.SIGVTALRM, on_timer)
+            signal.setitimer(signal.ITIMER_VIRTUAL, 60.0)
+            self.sig = signal
+        except (OSError, ValueError, AttributeError):
+            self.sig = None
+        return self
+
+    def __exit__(self, *exc):
+        if self.sig is not None:
+            self.sig.setitimer(self.sig.ITIMER_VIRTUAL, 0)
+            self.sig.signal(self.sig.SIGVTALRM, self.prev)
+        if self.res is not None:
+            self.res.setrlimit(self.res.RLIMIT_AS, self.old)
+        return False
+
+
+def _sized(circuits):
+    for ci in circuits:
+        if len(ci.operations) > MAX_OPS:
+            raise AssertionError(f"a returned circuit has {len(ci.operations)} operations")
+
+
+class _Ctx:
+    """the long-lived objects of one history: PauliTerm objects by key, PauliSum objects by hkey"""
+
+    def __init__(self, mods):
+        self.mods, self.terms, self.hams = mods, {}, {}
+
+    def term(self, t):
+        PauliTerm = self.mods[1]
+        k = t.get("key")
+        if k is None:
+            return _term(PauliTerm, t)
+        if k not in self.terms:
+            self.terms[k] = _term(PauliTerm, t)
+            return self.terms[k]
+        o, want = self.terms[k], _coeff(t)
+        if type(o.coefficient) is not type(want) or o.coefficient != want:
+            o.coefficient = want            # public attribute of a long-lived object
+        return o
+
+    def ham(self, c, terms):
+        PauliSum = self.mods[2]
+        seq = tuple(terms) if c.get("tseq") == "tuple" else list(terms)
+        k = c.get("hkey")
+        if k is None:
+            return PauliSum(seq)
+        if k not in self.hams:
+            self.hams[k] = PauliSum(seq)
+            return self.hams[k]
+        h = self.hams[k]
+        if c.get("hmut") == "assign":
+            h.terms = seq
+        elif c.get("hmut") == "inplace":
+            if isinstance(h.terms, list):
+                h.terms[:] = seq
+            else:
+                h.terms = seq
+        return h
+
+
+def _mutate_circuit(circ, how, H):
+    ops = circ.operations
+    if how == "append":
+        ops.append(H(0))
+    elif how == "clear":
+        ops.clear()
+    elif how == "reverse":
+        ops.reverse()
+        if ops:
+            ops.pop()
+    else:
+        raise AssertionError(how)
+
+
+def _run_one(c, ctx):
+    """one call of the API named by c["kind"] on the objects of ctx"""
+    ev, PauliTerm, PauliSum, Circuit, (H, CNOT, RZ) = ctx.mods
+    k = c["kind"]
+    targ, time, sym = _time_arg(c)
+    mut = c.get("mut")
+    if k == "term":
+        term = ctx.term(c)
+        try:
+            with _guard():
+                raw = ev.time_evolution_for_term(term, targ)
+        except ValueError:
+            return {"err": "err:value"}
+        _sized([raw])
+        circ = _bound(raw, sym, time)
+        act = _active(c, [circ])
+        lift = _Lifter(act)
+        out = {"circuit": _canon_circuit(circ), "n_qubits": circ.n_qubits, "U": _cm(lift.unitary(circ)), "time": time,
+               "active": act, "free": sorted(str(s) for s in raw.free_symbols)}
+        if lift.matrix_error:
+            out["matrix_error"] = lift.matrix_error
+        if mut:
+            _mutate_circuit(raw, mut, H)
+        return out
+    terms = [ctx.term(t) for t in c["terms"]]
+    if c.get("as_term"):
+        assert len(terms) == 1
+        ham = terms[0]
+    else:
+        ham = ctx.ham(c, terms)
+    steps = c["steps"]
+    if k == "sum":
+        try:
+            with _guard():
+                raw = ev.time_evolution(ham, targ, n_steps=steps)
+        except ValueError:
+            return {"err": "err:value"}
+        _sized([raw])
+        circ = _bound(raw, sym, time)
+        # the sentence itself: the circuit is the concatenation, over the steps, of the per-term circuits for t/steps
+        concat = []
+        for _ in range(steps):
+            for t in terms:
+                concat += _canon_circuit(_bound(ev.time_evolution_for_term(t, targ / steps), sym, time))
+        act = _active(c, [circ])
+        lift = _Lifter(act)
+        out = {"circuit": _canon_circuit(circ), "n_qubits": circ.n_qubits, "U": _cm(lift.unitary(circ)),
+               "concat_ok": concat == _canon_circuit(circ), "time": time, "active": act,
+               "free": sorted(str(s) for s in raw.free_symbols)}
+        if lift.matrix_error:
+            out["matrix_error"] = lift.matrix_error
+        if mut:
+            _mutate_circuit(raw, mut, H)
+        return out
+    if k == "deriv":
+        try:
+            with _guard():
+                circuits, factors = ev.time_evolution_derivatives(ham, targ, n_steps=steps)
+        except ValueError:
+            return {"err": "err:value"}
+        except ZeroDivisionError:
+            return {"err": "err:zerodiv"}
+        _sized(circuits)
+        act = _active(c, circuits)
+        lift = _Lifter(act)
+        obs, psi = _gauss_np(c["obs"]), _gauss_np([c["psi"]])[0]
+        exps = [_expect(obs, lift.unitary(ci), psi) for ci in circuits]
+        fd = {}
+        try:
+            for name, d in (("m2", -2), ("m1", -1), ("p1", 1), ("p2", 2)):
+                with _guard():
+                    shifted = ev.time_evolution(ham, time + d * H_FD, n_steps=steps)
+                _sized([shifted])
+                e = _expect(obs, lift.unitary(shifted), psi)
+                fd[name] = [e.real, e.imag]
+        except ValueError:
+            fd = None   # no evolution circuit exists (a non-real Hamiltonian whose guards the derivative code never evaluated)
+        out = {"factors": [float(f) for f in factors], "circuits": [_canon_circuit(ci) for ci in circuits],
+               "exps": [[e.real, e.imag] for e in exps], "fd": fd, "time": time, "active": act}
+        if lift.matrix_error:
+            out["matrix_error"] = lift.matrix_error
+        if mut:
+            if circuits:
+                _mutate_circuit(circuits[0], "clear" if mut == "clear" else "append", H)
+                if mut == "reverse":
+                    circuits.reverse()
+                    circuits.pop()
+            if isinstance(factors, list):
+                factors.reverse()
+                factors.append(7.0)
+        return out
+    raise AssertionError("unknown kind")
+
+
 def run_impl(c):
-    import numpy as np
-    ev, PauliTerm, PauliSum, Circuit, (H, CNOT, RZ) = _mods()
+    mods = _mods()
+    ev, PauliTerm, PauliSum, Circuit, (H, CNOT, RZ) = mods
     k = c["kind"]
     with warnings.catch_warnings():
         warnings.simplefilter("ignore")
@@ -134,55 +432,28 @@ def run_impl(c):
                     g = {"H": H, "CNOT": CNOT}.get(name) or RZ(float(unrat(p[0])) + float(unrat(p[1])) * math.pi)
                     ops.append(g(*qs))
                 return Circuit(ops)
+            rep = build(c["rep"])
+            diff = rep if c.get("alias") else build(c["diff"])
             try:
-                r = ev._generate_circuit_sequence(build(c["rep"]), build(c["diff"]), c["length"], c["position"])
+                r = ev._generate_circuit_sequence(rep, diff, c["length"], c["position"])
             except ValueError:
                 return {"err": "err:value"}
-            return {"circuit": _canon_circuit(r)}
-        time = float(unrat(c["t"])) * _tau(c.get("base"))
-        n = c["n"]
-        lift = _Lifter(n)
-        if k == "term":
-            term = _term(PauliTerm, c)
-            try:
-                circ = ev.time_evolution_for_term(term, time)
-            except ValueError:
-                return {"err": "err:value"}
-            return {"circuit": _canon_circuit(circ), "n_qubits": circ.n_qubits, "U": _cm(lift.unitary(circ)), "time": time}
-        terms = [_term(PauliTerm, t) for t in c["terms"]]
-        ham = PauliSum(terms)
-        steps = c["steps"]
-        if k == "sum":
-            try:
-                circ = ev.time_evolution(ham, time, n_steps=steps)
-            except ValueError:
-                return {"err": "err:value"}
-            # the sentence itself: the circuit is the concatenation, over the steps, of the per-term circuits for t/steps
-            concat = []
-            for _ in range(steps):
-                for t in terms:
-                    concat += _canon_circuit(ev.time_evolution_for_term(t, time / steps))
-            return {"circuit": _canon_circuit(circ), "n_qubits": circ.n_qubits, "U": _cm(lift.unitary(circ)),
-                    "concat_ok": concat == _canon_circuit(circ), "time": time}
-        if k == "deriv":
-            try:
-                circuits, factors = ev.time_evolution_derivatives(ham, time, n_steps=steps)
-            except ValueError:
-                return {"err": "err:value"}
-            except ZeroDivisionError:
-                return {"err": "err:zerodiv"}
-            obs, psi = _gauss_np(c["obs"]), _gauss_np([c["psi"]])[0]
-            exps = [_expect(obs, lift.unitary(ci), psi) for ci in circuits]
-            fd = {}
-            try:
-                for name, d in (("m2", -2), ("m1", -1), ("p1", 1), ("p2", 2)):
-                    e = _expect(obs, lift.unitary(ev.time_evolution(ham, time + d * H_FD, n_steps=steps)), psi)
-                    fd[name] = [e.real, e.imag]
-            except ValueError:
-                fd = None   # no evolution circuit exists (a non-real Hamiltonian whose guards the derivative code never evaluated)
-            return {"factors": [float(f) for f in factors], "circuits": [_canon_circuit(ci) for ci in circuits],
-                    "exps": [[e.real, e.imag] for e in exps], "fd": fd, "time": time}
-    raise AssertionError("unknown kind")
+            out = {"circuit": _canon_circuit(r)}
+            # the caller owns the result: modify it, ask again
+            r.operations.append(H(0))
+            r.operations.reverse()
+            out["circuit2"] = _canon_circuit(ev._generate_circuit_sequence(rep, diff, c["length"], c["position"]))
+            return out
+        if k == "hist":
+            ctx = _Ctx(mods)
+            outs = []
+            for sub in c["calls"]:
+                try:
+                    outs.append(_run_one(sub, ctx))
+                except Exception as e:   # the history goes on: later calls are judged on their own
+                    outs.append({"exc": type(e).__name__, "msg": str(e)[:200]})
+            return {"calls": outs}
+        return _run_one(c, _Ctx(mods))
 
 
 # ------------------------------------------------------------------------------------------------ model side
@@ -191,13 +462,19 @@ def _mterm(t):
 
 
 def _evaluable(c):
-    return c.get("base") is not None
+    return c.get("base") is not None and c.get("active") is None
 
 
 def requests(c, out):
     k = c["kind"]
+    if k == "hist":
+        rs = []
+        for sub in c["calls"]:
+            rs += requests(sub, None)
+        return rs
     if k == "seq":
-        return [("sequence", {"repeated": c["rep"], "different": c["diff"], "length": c["length"], "position": c["position"]})]
+        diff = c["rep"] if c.get("alias") else c["diff"]
+        return [("sequence", {"repeated": c["rep"], "different": diff, "length": c["length"], "position": c["position"]})]
     extra = {"n": c["n"], "base": c["base"]} if _evaluable(c) else {}
     if k == "term":
         return [("term", dict(term=_mterm(c), time=[c["t"], 0], **extra))]
@@ -226,13 +503,14 @@ def _cmp_circuit(impl, model, tau, what):
     return None
 
 
-
-def _model_unitary(mc, tau, n):
+def _model_unitary(mc, tau, active):
     """numeric matrix of a MODEL circuit (gate list with exact angles a·τ + b·π) by the independent bit-manipulation
     embedding of harness/circ.py and textbook gate formulas; used only when the implementation's circuit differs
     structurally from the model's: then the two must at least be the same operator"""
     import numpy as np
     from .. import circ
+    rank = {q: i for i, q in enumerate(active)}
+    n = len(active)
     u = np.eye(2 ** n, dtype=complex)
     for name, p, qs in mc:
         th = None if p is None else float(unrat(p[0])) * tau + float(unrat(p[1])) * math.pi
@@ -249,30 +527,46 @@ def _model_unitary(mc, tau, n):
             raise ValueError(name)
         if name.endswith("_Dagger"):
             g = g.conj().T
-        u = circ.embed_reference(g, list(qs), n) @ u
+        u = circ.embed_reference(g, [rank[q] for q in qs], n) @ u
     return u
+
+
+def _act(c, out):
+    return out.get("active") or (list(c["active"]) if c.get("active") is not None else list(range(c["n"])))
 
 
 def compare(c, out, resp):
     import numpy as np
+    k = c["kind"]
+    if k == "hist":
+        if "exc" in out:
+            return f"implementation raised {out['exc']}: {out.get('msg')}"
+        for i, (sub, so) in enumerate(zip(c["calls"], out["calls"])):
+            m = compare(sub, so, [resp[i]])
+            if m:
+                return f"call {i} ({_describe(sub)}) of the history: " + m
+        return None
     r = resp[0]
     if isinstance(r, dict) and "driver_error" in r:
         return "driver error: " + r["driver_error"]
     if "exc" in out:
         return f"implementation raised {out['exc']}: {out.get('msg')}; model {str(r)[:200]}"
-    k = c["kind"]
     if isinstance(r, str) or "err" in out:
         if out.get("err") != r:
             return f"{k}: impl {out.get('err') or 'returned a result'}, model {r if isinstance(r, str) else 'returns a result'}"
         return None
     tau = _tau(c.get("base"))
     if k == "seq":
-        return _cmp_circuit(out["circuit"], r, 1.0, "_generate_circuit_sequence")
+        return (_cmp_circuit(out["circuit"], r, 1.0, "_generate_circuit_sequence")
+                or _cmp_circuit(out["circuit2"], r, 1.0, "_generate_circuit_sequence (second call)"))
     if k in ("term", "sum"):
         m = _cmp_circuit(out["circuit"], r["circuit"], tau, "circuit")
         if m:
             # a structurally different circuit is tolerated only if it is the same operator as the model's circuit
-            dev = float(np.max(np.abs(_np(out["U"]) - _model_unitary(r["circuit"], tau, c["n"]))))
+            act = sorted(set(_act(c, out)) | {q for g in r["circuit"] for q in g[2]})
+            if act != _act(c, out):
+                return m + " (and the model's circuit touches other qubits)"
+            dev = float(np.max(np.abs(_np(out["U"]) - _model_unitary(r["circuit"], tau, act))))
             if dev > 1e-9:
                 return m + f" (and the two circuits differ as operators by {dev:.3e})"
         if "unitary" in r:
@@ -291,8 +585,11 @@ def compare(c, out, resp):
             m = _cmp_circuit(a, b, tau, f"derivative circuit {i}")
             if m:
                 # tolerated only if it has the same expectation as the model's circuit on this observable and state
+                act = _act(c, out)
+                if any(q not in act for g in b for q in g[2]):
+                    return m + " (and the model's circuit touches other qubits)"
                 obs, psi = _gauss_np(c["obs"]), _gauss_np([c["psi"]])[0]
-                e = _expect(obs, _model_unitary(b, tau, c["n"]), psi)
+                e = _expect(obs, _model_unitary(b, tau, act), psi)
                 if abs(e - complex(*out["exps"][i])) > 1e-9 * _scale(c):
                     return m + " (and the expectations under the two circuits differ)"
         if "value" in r:
@@ -305,15 +602,28 @@ def compare(c, out, resp):
 
 
 # ------------------------------------------------------------------------------------------------ oracle
-def _pauli_matrix(ops, n):
+_P1 = None
+
+
+def _pauli_matrix(ops, active):
     import numpy as np
-    mats = {"I": np.eye(2, dtype=complex), "X": np.array([[0, 1], [1, 0]], dtype=complex),
-            "Y": np.array([[0, -1j], [1j, 0]]), "Z": np.array([[1, 0], [0, -1]], dtype=complex)}
+    global _P1
+    if _P1 is None:
+        _P1 = {"I": np.eye(2, dtype=complex), "X": np.array([[0, 1], [1, 0]], dtype=complex),
+               "Y": np.array([[0, -1j], [1j, 0]]), "Z": np.array([[1, 0], [0, -1]], dtype=complex)}
     d = {int(q): p for q, p in ops}
     m = np.eye(1, dtype=complex)
-    for q in range(n):
-        m = np.kron(m, mats[d.get(q, "I")])
+    for q in active:
+        m = np.kron(m, _P1[d.get(q, "I")])
     return m
+
+
+def _exp_pauli(a, p, literal):
+    """(exp(-i a P) by the closed form cos a - i sin a P,  the same by scipy's expm when |a| <= 150 and asked for)"""
+    import numpy as np
+    from scipy.linalg import expm
+    closed = math.cos(a) * np.eye(p.shape[0], dtype=complex) - 1j * math.sin(a) * p
+    return closed, (expm(-1j * a * p) if literal and abs(a) <= 150 else None)
 
 
 def _scale(c):
@@ -339,26 +649,56 @@ def _imag_class(ts):
     return worst
 
 
+def _describe(c):
+    k = c["kind"]
+    tt = c.get("ttype", "float")
+    if k == "term":
+        return f"time_evolution_for_term({c['coeff']}*{c['ops']} [object {c.get('key')}], t={c['t']} as {tt})"
+    ts = [(t["coeff"], t["ops"], t.get("key")) for t in c["terms"]]
+    f = "time_evolution" if k == "sum" else "time_evolution_derivatives"
+    return f"{f}({ts} [object {c.get('hkey')}{', listing changed by ' + c['hmut'] if c.get('hmut') else ''}], t={c['t']} as {tt}, n_steps={c['steps']})"
+
+
 def oracle(c, out):
     """the sentences of the property on the implementation's outputs; shares nothing with the Lean model"""
+    res = _oracle(c, out)
+    if res is None and isinstance(out, dict) and out.get("matrix_error"):
+        # everything else held (with Python-float copies of the gate parameters), but the circuit AS RETURNED has no matrix
+        if c.get("ttype") in ("npfloat", "npint") or any(t.get("ctype") in ("npfloat", "npcomplex") for t in ([c] if c["kind"] == "term" else c["terms"])):
+            return ("numpy-scalar-gate-parameter-no-matrix", f"{_describe(c)}: the circuit is built, but its matrix cannot be taken: {out['matrix_error']}")
+        return ("gate-matrix-raises", f"{_describe(c)}: {out['matrix_error']}")
+    return res
+
+
+def _oracle(c, out):
     import numpy as np
-    from scipy.linalg import expm
     if "exc" in out:
         return ("unexpected-exception", f"implementation raised {out['exc']}: {out.get('msg')}")
     k = c["kind"]
+    if k == "hist":
+        for i, (sub, so) in enumerate(zip(c["calls"], out["calls"])):
+            res = oracle(sub, so)
+            if res:
+                prev = "; ".join(_describe(s) + (f" then result modified by the caller ({s['mut']})" if s.get("mut") else "")
+                                 for s in c["calls"][max(0, i - 2):i])
+                return ("history:" + res[0], f"call {i} of a history on shared objects, {_describe(sub)}, after [{prev}]: {res[1]}")
+        return None
     if k == "seq":
         if c["position"] >= c["length"]:
             return None if out.get("err") else ("sequence-accepts-bad-position", "position >= length accepted")
         if "circuit" not in out:
             return ("sequence-raise", "valid _generate_circuit_sequence request rejected")
         want = []
+        diff = c["rep"] if c.get("alias") else c["diff"]
         for i in range(c["length"]):
             want += [[g[0], None if g[1] is None else float(unrat(g[1][0])) + float(unrat(g[1][1])) * math.pi, g[2]]
-                     for g in (c["diff"] if i == c["position"] else c["rep"])]
+                     for g in (diff if i == c["position"] else c["rep"])]
         if want != out["circuit"]:
             return ("sequence-splice", f"sequence {out['circuit']} is not the requested splice {want}")
+        if want != out["circuit2"]:
+            return ("sequence-splice-second-call", f"second call (after the caller modified the first result): {out['circuit2']} is not the requested splice {want}")
         return None
-    n = c["n"]
+    act = _act(c, out)
     if k == "term":
         cls = _imag_class([c])
         if not c["ops"]:
@@ -373,17 +713,25 @@ def oracle(c, out):
         if "err" in out:
             return ("real-term-rejected", f"term with real coefficient {c['coeff']} raised {out['err']}")
         re = float(unrat(c["coeff"][0]))
-        want = expm(-1j * out["time"] * re * _pauli_matrix(c["ops"], n))
-        dev = float(np.max(np.abs(_np(out["U"]) - want)))
-        if dev > 1e-8:
-            w = len(c["ops"])
-            return ("term-matrix", f"term {c['ops']} coeff {re} time {out['time']!r}: circuit matrix differs from exp(-i t c P) by {dev:.3e} (weight {w})")
+        a = out["time"] * re
+        closed, lit = _exp_pauli(a, _pauli_matrix(c["ops"], act), True)
+        u = _np(out["U"])
+        w = len(c["ops"])
+        if lit is not None:
+            dev = float(np.max(np.abs(u - lit)))
+            if dev > 1e-8:
+                return ("term-matrix", f"term {c['ops']} coeff {re} time {out['time']!r}: circuit matrix differs from exp(-i t c P) by {dev:.3e} (weight {w})")
+        dev = float(np.max(np.abs(u - closed)))
+        if dev > TIGHT * (1 + abs(a)):
+            return ("term-matrix", f"term {c['ops']} coeff {re!r} time {out['time']!r}: circuit matrix differs from exp(-i t c P) "
+                    f"= cos(tc) - i sin(tc) P by {dev:.3e} (weight {w}, t*c = {a!r})")
         return None
     cls = _imag_class(c["terms"])
     steps = c["steps"]
     res = [float(unrat(t["coeff"][0])) for t in c["terms"]]
-    paulis = [_pauli_matrix(t["ops"], n) for t in c["terms"]]
+    paulis = [_pauli_matrix(t["ops"], act) for t in c["terms"]]
     nonconst = [bool(t["ops"]) for t in c["terms"]]
+    dim = 2 ** len(act)
     if k == "sum":
         if cls == "reject":
             return None if out.get("err") == "err:value" else (
@@ -395,14 +743,23 @@ def oracle(c, out):
         if not out["concat_ok"]:
             return ("sum-not-concatenation", f"steps={steps}: the circuit is not the concatenation over the steps of the per-term "
                     f"circuits for time t/steps in listed order")
-        step = np.eye(2 ** n, dtype=complex)
+        step_c, step_l, tot = np.eye(dim, dtype=complex), np.eye(dim, dtype=complex), 0.0
         for re, p, nc in zip(res, paulis, nonconst):
             if nc:
-                step = expm(-1j * (out["time"] / steps) * re * p) @ step
-        want = np.linalg.matrix_power(step, steps)
-        dev = float(np.max(np.abs(_np(out["U"]) - want)))
-        if dev > 1e-8:
-            return ("sum-matrix", f"{len(res)} terms, steps={steps}: circuit matrix differs from the ordered product of exp(-i t/steps c_k P_k) by {dev:.3e}")
+                a = (out["time"] / steps) * re
+                closed, lit = _exp_pauli(a, p, step_l is not None)
+                step_c = closed @ step_c
+                step_l = None if lit is None or step_l is None else lit @ step_l
+                tot += abs(a)
+        u = _np(out["U"])
+        if step_l is not None:
+            dev = float(np.max(np.abs(u - np.linalg.matrix_power(step_l, steps))))
+            if dev > 1e-8:
+                return ("sum-matrix", f"{len(res)} terms, steps={steps}: circuit matrix differs from the ordered product of exp(-i t/steps c_k P_k) by {dev:.3e}")
+        dev = float(np.max(np.abs(u - np.linalg.matrix_power(step_c, steps))))
+        if dev > TIGHT * (1 + tot * steps):
+            return ("sum-matrix", f"{len(res)} terms, steps={steps}: circuit matrix differs from the ordered product of "
+                    f"exp(-i t/steps c_k P_k) = cos - i sin P_k by {dev:.3e}")
         return None
     if k == "deriv":
         if cls != "real":
@@ -413,6 +770,8 @@ def oracle(c, out):
                         f"(terms {[(t['ops'], t['coeff'][0]) for t in c['terms']]}); the derivative exists (that term contributes 0) "
                         f"[regression of the fix 9211baa]")
             return ("derivative-raise", f"time_evolution_derivatives raised {out['err']} on a real Hamiltonian")
+        if len(out["factors"]) != len(out["exps"]):
+            return ("derivative-shape", f"{len(out['exps'])} circuits but {len(out['factors'])} factors")
         got = sum(f * complex(*e) for f, e in zip(out["factors"], out["exps"]))
         sc = _scale(c)
         if out["fd"] is None:
@@ -428,20 +787,27 @@ def oracle(c, out):
         for _ in range(steps):
             for re, p, nc in zip(res, paulis, nonconst):
                 if nc:
-                    fac.append((expm(-1j * (t / steps) * re * p), (-1j * re / steps) * p))
+                    fac.append((_exp_pauli((t / steps) * re, p, False)[0], (-1j * re / steps) * p))
         obs, psi = _gauss_np(c["obs"]), _gauss_np([c["psi"]])[0]
-        w = np.eye(2 ** n, dtype=complex)
+        # prefix / suffix products: W = V_m … V_1,  dW = Σ_i V_m … V_{i+1} (G_i V_i) V_{i-1} … V_1
+        pre = [np.eye(dim, dtype=complex)]
         for v, _ in fac:
-            w = v @ w
+            pre.append(v @ pre[-1])
+        suf = [np.eye(dim, dtype=complex)]
+        for v, _ in reversed(fac):
+            suf.append(suf[-1] @ v)
+        w = pre[-1]
         dw = np.zeros_like(w)
-        for i in range(len(fac)):
-            m = np.eye(2 ** n, dtype=complex)
-            for j, (v, g) in enumerate(fac):
-                m = (g @ v if i == j else v) @ m
-            dw = dw + m
+        m_ = len(fac)
+        for i, (v, g) in enumerate(fac):
+            dw = dw + suf[m_ - 1 - i] @ (g @ pre[i + 1])
         v0, v1 = w @ psi, dw @ psi
         d_an = complex(v1.conj() @ obs @ v0 + v0.conj() @ obs @ v1)
-        if abs(got - d_an) > 1e-8 * sc:
+        # every summand f_i e_i carries a coefficient c_k / steps: the float noise of both sides is proportional to
+        # Σ|c_k| |O| |ψ|² (measured 2e-15 of it on the unchanged code), and so is the tolerance
+        s_abs = sum(abs(r) for r in res)
+        tol = TIGHT * float(np.linalg.norm(obs) * np.linalg.norm(psi) ** 2) * s_abs * (1 + abs(t) * 1e-3) + 1e-300
+        if abs(got - d_an) > tol:
             return ("derivative-" + ("multi-step" if steps > 1 else "single-step"),
                     f"steps={steps}: factor-weighted sum {got!r} but the derivative of the ordered product of exponentials is {d_an!r}")
         return None
@@ -496,11 +862,16 @@ def _all_strings(n):
     return out
 
 
-def _ham(rng, n, nterms, steps, exact=True, special=True):
+def _ham(rng, n, nterms, steps, exact=True, special=True, far_dup=0.0):
     d = rng.choice([1, 2, 4])
     terms = []
     for _ in range(nterms):
         r = rng.random()
+        if far_dup and len(terms) >= 2 and rng.random() < far_dup:
+            # the SAME term as one listed earlier (not the previous one): palindromic / symmetric Trotter orderings
+            src = rng.choice(terms[:-1])
+            terms.append({"ops": [list(o) for o in src["ops"]], "coeff": list(src["coeff"]), "ctype": src["ctype"]})
+            continue
         if special and r < 0.08:
             ops = []                                  # constant term
         elif special and r < 0.16 and terms:
@@ -565,8 +936,483 @@ def _seq_case(rng):
     return {"kind": "seq", "rep": circ(rng.randrange(0, 4)), "diff": circ(rng.randrange(0, 4)), "length": length, "position": position}
 
 
+# ---- new streams ---------------------------------------------------------------------------------
+def _dyadic(rng, lo=-4, hi=4, den=16):
+    while True:
+        x = Fraction(rng.randrange(lo * den, hi * den + 1), den)
+        if x != 0:
+            return x
+
+
+def _magnitude_term(rng):
+    """|coefficient| and |time| of opposite extreme magnitudes, t·c of ordinary size (all products exact in doubles)"""
+    n = rng.randrange(1, 4)
+    k = rng.randrange(20, 46)
+    small, big = _dyadic(rng) / 2 ** k, _dyadic(rng) * 2 ** k
+    co, m = (small, big) if rng.random() < 0.6 else (big, small)
+    return {"kind": "term", "ops": _rand_ops(rng, n), "coeff": [rat(co), 0], "ctype": rng.choice(["float", "complex"]),
+            "t": rat(m), "base": None, "n": n}
+
+
+def _high_ops(rng, weight=None, lo=8):
+    """operators on qubits up to 13, at least one index >= lo, insertion order shuffled"""
+    w = weight or rng.randrange(2, 5)
+    while True:
+        qs = rng.sample(range(14), w)
+        if max(qs) >= lo and (w < 2 or sorted(qs) != qs or rng.random() < 0.3):
+            break
+    return [[q, rng.choice(PAULIS)] for q in qs]
+
+
+def _high_index_term(rng):
+    ops = _high_ops(rng, lo=rng.choice([8, 8, 10]))
+    act = sorted(q for q, _ in ops)
+    idle = [q for q in range(14) if q not in act]
+    if rng.random() < 0.4:
+        act = sorted(act + [rng.choice(idle)])
+    c = _term_case(rng, ops, max(act) + 1, exact=False)
+    c["active"] = act
+    return c
+
+
+def _typed_time(rng, c, allow_symbol=True):
+    """hand the time over as another numeric type (the value is unchanged where the type can hold it)"""
+    tt = rng.choice(["int", "npfloat", "npint", "sympy"] + (["symbol", "symbol"] if allow_symbol else []))
+    if tt in ("int", "npint"):
+        c["base"] = None
+        c["t"] = rng.choice([-3, -2, -1, 1, 2, 3, 5, 7])
+    elif tt == "sympy":
+        c["base"] = None
+        c["t"] = rat(Fraction(rng.choice([-7, -3, -1, 1, 2, 3, 5]), rng.choice([1, 2, 3, 4])))
+    c["ttype"] = tt
+    if tt == "symbol":
+        c["sym"] = rng.choice(["t", "t", "theta_1", "pi", "I", "gamma", "lambda", "E", "dummy:t", "dummy:t"])
+        c["sym_form"] = rng.choice(["s", "s", "2*s", "s+1"])
+    return c
+
+
+def _typed_coeff(rng, c):
+    """numpy scalars as coefficients (what one gets when coefficients come out of an array)"""
+    for t in (c["terms"] if "terms" in c else [c]):
+        if rng.random() < 0.7:
+            t["ctype"] = "npcomplex" if t["ctype"] == "complex" else "npfloat"
+    return c
+
+
+def _big_real_imag_term(rng):
+    n = rng.randrange(1, 3)
+    re = rng.choice([100, 1000, 5000, 2 ** 17, 2 ** 20]) * rng.choice([1, -1])
+    im = rng.choice([Fraction(1, 10 ** 3), Fraction(1, 50), Fraction(-1, 4), Fraction(3, 10 ** 6), Fraction(-1, 10 ** 4),
+                     Fraction(1, 10 ** 5), Fraction(0), Fraction(1, 10 ** 12)])
+    if rng.random() < 0.5:
+        # small RELATIVE to the real part, but not small
+        rel = abs(re) * rng.choice([Fraction(3, 10 ** 10), Fraction(1, 10 ** 8), Fraction(2, 10 ** 6)]) * rng.choice([1, -1])
+        if abs(rel) >= Fraction(2, 10 ** 6):
+            im = rel
+    return {"kind": "term", "ops": _rand_ops(rng, n), "coeff": [re, rat(im)], "ctype": "complex",
+            "t": rat(Fraction(rng.randrange(1, 64), 2 ** 20)), "base": None, "n": n}
+
+
+def _z_only_ham(rng, n, steps):
+    """every term a single Z (Ising field): several on the SAME qubit, different coefficients"""
+    terms = []
+    for _ in range(rng.randrange(2, 5)):
+        terms.append({"ops": [[rng.randrange(n), "Z"]], "coeff": [rat(_dyadic(rng, -3, 3, 4)), 0], "ctype": "float"})
+    return {"terms": terms, "t": rat(_dyadic(rng, -3, 3, 256)), "steps": steps, "base": None, "n": n}
+
+
+def _tiny_ham(rng, n, nterms, steps, mixed):
+    """coefficients around 2^-27 .. 2^-40 (all of them, or next to ordinary ones), ordinary time"""
+    h = _ham(rng, n, nterms, steps, exact=False, special=False)
+    idx = list(range(nterms))
+    rng.shuffle(idx)
+    for j, i in enumerate(idx):
+        if not mixed or j == 0 or rng.random() < 0.3:
+            k = rng.choice([27, 28, 30, 34, 40])
+            h["terms"][i]["coeff"] = [rat(_dyadic(rng, -3, 3, 4) / 2 ** k), 0]
+            h["terms"][i]["ctype"] = rng.choice(["float", "complex"])
+    return h
+
+
+SUM_SHAPES = ["many_steps", "int_time", "symbol", "as_term", "tuple", "z_only", "far_dup", "many_terms", "high_index",
+              "tiny", "sympy_time", "very_many_steps", "npint_time", "symbol", "zero_time", "huge", "np_coeff", "very_many_steps",
+              "some_terms"]
+DERIV_SHAPES = ["tiny_all", "far_dup", "tiny_mixed", "empty", "constant_only", "as_term", "tuple", "int_time", "far_dup", "z_only",
+                "tiny_all", "npint_time", "zero_time", "many_terms", "np_coeff", "many_steps"]
+
+
+def _variant_sum(rng, i, big):
+    """sum cases of special shapes, cycling through the shapes so that every run contains each of them"""
+    shape = SUM_SHAPES[i % len(SUM_SHAPES)]
+    n = rng.choice([1, 2, 2, 3])
+    if shape == "many_steps":
+        h = _ham(rng, n, rng.randrange(1, 4), rng.randrange(5, 10), exact=rng.random() < 0.4)
+    elif shape == "very_many_steps":
+        # alternately an odd and an even count
+        h = _ham(rng, rng.choice([1, 2]), rng.randrange(1, 3), rng.choice([12, 16, 32, 64, 70]) + (i // len(SUM_SHAPES) + (i % len(SUM_SHAPES) > 12)) % 2, exact=False)
+    elif shape == "zero_time":
+        h = _ham(rng, n, rng.randrange(1, 4), rng.randrange(1, 4), exact=False)
+        h["t"] = 0
+        h["ttype"] = rng.choice(["float", "int", "sympy"])
+    elif shape == "huge":
+        # huge coefficients, a very short time
+        h = _ham(rng, n, rng.randrange(1, 4), rng.randrange(1, 4), exact=False, special=False)
+        for t in h["terms"]:
+            t["coeff"] = [rat(_dyadic(rng, -3, 3, 4) * 2 ** 30), 0]
+        h["t"] = rat(_dyadic(rng, -3, 3, 4) / 2 ** 30)
+    elif shape == "np_coeff":
+        h = _typed_coeff(rng, _ham(rng, n, rng.randrange(1, 4), rng.randrange(1, 4), exact=False))
+    elif shape in ("int_time", "npint_time", "sympy_time", "symbol"):
+        h = _ham(rng, n, rng.randrange(1, 4), rng.randrange(2, 5), exact=False)
+        h["ttype"] = {"int_time": "int", "npint_time": "npint", "sympy_time": "sympy", "symbol": "symbol"}[shape]
+        if shape in ("int_time", "npint_time"):
+            # an integer time that the step count does not divide
+            h["t"] = h["steps"] * rng.randrange(-2, 3) + rng.randrange(1, h["steps"])
+        elif shape == "sympy_time":
+            h["t"] = rat(Fraction(rng.choice([-5, -1, 1, 3, 7]), rng.choice([1, 2, 3])))
+        else:
+            h["sym"] = rng.choice(["t", "theta_1", "pi", "I", "gamma", "dummy:t"])
+            h["sym_form"] = rng.choice(["s", "s", "2*s", "s+1"])
+    elif shape == "as_term":
+        h = _ham(rng, n, 1, rng.randrange(2, 5), exact=rng.random() < 0.5, special=False)
+        h["as_term"] = True
+    elif shape == "tuple":
+        h = _ham(rng, n, rng.randrange(1, 4), rng.randrange(1, 4), exact=rng.random() < 0.5)
+        h["tseq"] = "tuple"
+    elif shape == "z_only":
+        h = _z_only_ham(rng, n, rng.randrange(1, 4))
+    elif shape == "far_dup":
+        h = _ham(rng, max(n, 2), rng.randrange(3, 6), rng.randrange(1, 4), exact=False, far_dup=0.5)
+    elif shape == "many_terms":
+        h = _ham(rng, rng.choice([2, 3]), rng.randrange(64, 80), rng.randrange(1, 3), exact=False, far_dup=0.1)
+    elif shape == "some_terms":
+        h = _ham(rng, rng.choice([2, 3]), rng.randrange(12, 40), rng.randrange(1, 3), exact=False, far_dup=0.1)
+    elif shape == "high_index":
+        terms = [{"ops": _high_ops(rng, weight=rng.randrange(1, 4)), "coeff": [rat(_dyadic(rng, -3, 3, 4)), 0], "ctype": "float"}
+                 for _ in range(rng.randrange(1, 3))]
+        act = sorted({q for t in terms for q, _ in t["ops"]})
+        h = {"terms": terms, "t": rat(_dyadic(rng, -3, 3, 256)), "steps": rng.randrange(1, 4), "base": None,
+             "n": max(act) + 1, "active": act}
+    else:  # tiny
+        h = _tiny_ham(rng, n, rng.randrange(1, 4), rng.randrange(1, 4), mixed=rng.random() < 0.5)
+        # a long time makes the tiny terms visible in the matrix: t · c of ordinary size for the tiny ones
+        h["t"] = rat(_dyadic(rng, -3, 3, 4) * 2 ** 27) if all(abs(unrat(t["coeff"][0])) < 1e-6 for t in h["terms"]) else h["t"]
+    h["kind"] = "sum"
+    return h
+
+
+def _variant_deriv(rng, i):
+    shape = DERIV_SHAPES[i % len(DERIV_SHAPES)]
+    n = rng.choice([1, 2, 2])
+    steps = rng.randrange(1, 4)
+    if shape == "tiny_all":
+        h = _tiny_ham(rng, n, rng.randrange(1, 4), steps, mixed=False)
+    elif shape == "tiny_mixed":
+        h = _tiny_ham(rng, max(n, 2), rng.randrange(2, 4), steps, mixed=True)
+    elif shape == "far_dup":
+        # A, B, A with B (very likely) not commuting with A
+        n = 2
+        h = _ham(rng, n, 3, steps, exact=False, special=False)
+        h["terms"][2] = {"ops": [list(o) for o in h["terms"][0]["ops"]], "coeff": list(h["terms"][0]["coeff"]), "ctype": h["terms"][0]["ctype"]}
+        if rng.random() < 0.5:
+            h["terms"].append({"ops": _rand_ops(rng, n), "coeff": [rat(_dyadic(rng, -3, 3, 4)), 0], "ctype": "float"})
+    elif shape == "empty":
+        h = _ham(rng, n, 0, steps, exact=False)
+    elif shape == "constant_only":
+        h = _ham(rng, n, 0, steps, exact=False)
+        h["terms"] = [{"ops": [], "coeff": [rat(_dyadic(rng, -3, 3, 4)), 0], "ctype": "float"} for _ in range(rng.randrange(1, 3))]
+    elif shape == "as_term":
+        h = _ham(rng, n, 1, rng.randrange(1, 4), exact=False, special=False)
+        h["as_term"] = True
+    elif shape == "tuple":
+        h = _ham(rng, n, rng.randrange(1, 4), steps, exact=False)
+        h["tseq"] = "tuple"
+    elif shape in ("int_time", "npint_time"):
+        h = _ham(rng, n, rng.randrange(1, 3), rng.randrange(2, 4), exact=False)
+        h["ttype"] = "int" if shape == "int_time" else rng.choice(["npint", "npfloat"])
+        if h["ttype"] != "npfloat":
+            h["t"] = h["steps"] * rng.randrange(-1, 2) + rng.randrange(1, h["steps"])
+    elif shape == "zero_time":
+        h = _ham(rng, n, rng.randrange(1, 4), steps, exact=False)
+        h["t"] = 0
+        h["ttype"] = rng.choice(["float", "int"])
+    elif shape == "many_terms":
+        h = _ham(rng, 2, rng.randrange(64, 72), 1, exact=False, far_dup=0.1)
+    elif shape == "many_steps":
+        h = _ham(rng, rng.choice([1, 2]), rng.randrange(1, 3), rng.choice([5, 7, 8, 12, 16]), exact=False)
+    elif shape == "np_coeff":
+        h = _typed_coeff(rng, _ham(rng, n, rng.randrange(1, 4), steps, exact=False))
+    else:
+        h = _z_only_ham(rng, n, steps)
+    h["kind"] = "deriv"
+    h["obs"], h["psi"] = _obs_psi(rng, h["n"])
+    return h
+
+
+# ---- histories -----------------------------------------------------------------------------------
+SCENARIOS = ["time_hash", "coeff_nudge_same", "coeff_nudge_fresh", "coeff_imag_same", "steps", "order", "deriv_time",
+             "deriv_coeff", "result_mut_term", "result_mut_sum", "result_mut_deriv", "add_drop", "coeff_hash", "mixed",
+             "pauli_swap", "ising_flag"]
+NUDGE = Fraction(1, 2 ** 23)
+
+
+class _Hist:
+    """generator state of one history: a pool of keyed terms, the listing of one Hamiltonian, a time, a step count"""
+
+    def __init__(self, rng, n, nterms):
+        self.rng, self.n = rng, n
+        self.next_key = 0
+        self.pool = {}
+        self.listing = []
+        for _ in range(nterms):
+            k = self.new_term(_rand_ops(rng, n, weight=rng.randrange(1, n + 1)), _dyadic(rng, -3, 3, 4), rng.choice(["float", "float", "complex"]))
+            self.listing.append(k)
+        self.t = _dyadic(rng, -3, 3, 64)
+        self.steps = rng.randrange(1, 4)
+        self.hkey = 0
+        self.hmut = None
+        self.calls = []
+        self.obs, self.psi = _obs_psi(rng, n)
+
+    def new_term(self, ops, co, ct):
+        k = self.next_key
+        self.next_key += 1
+        self.pool[k] = {"ops": [list(o) for o in ops], "coeff": [rat(co), 0], "ctype": ct, "key": k}
+        return k
+
+    def _t(self, k):
+        t = self.pool[k]
+        return {"ops": [list(o) for o in t["ops"]], "coeff": list(t["coeff"]), "ctype": t["ctype"], "key": t["key"]}
+
+    def relisted(self):
+        self.hmut = self.rng.choice(["assign", "inplace"])
+
+    def call(self, kind, key=None, mut=None):
+        if kind == "term":
+            c = dict(self._t(key if key is not None else self.rng.choice(self.listing or list(self.pool))))
+            c.update(kind="term", t=rat(self.t), base=None, n=self.n)
+        else:
+            c = {"kind": kind, "terms": [self._t(k) for k in self.listing], "t": rat(self.t), "steps": self.steps,
+                 "base": None, "n": self.n, "hkey": self.hkey}
+            if self.hmut:
+                c["hmut"] = self.hmut
+                self.hmut = None
+            if kind == "deriv":
+                c["obs"], c["psi"] = self.obs, self.psi
+        if mut:
+            c["mut"] = mut
+        self.calls.append(c)
+
+    # ---- one-component changes
+    def change_time(self, hashy=False):
+        r = self.rng
+        if hashy:
+            self.t = Fraction(-2) if self.t == -1 else Fraction(-1)
+        else:
+            self.t = r.choice([self.t + Fraction(1, 2 ** 20), -self.t, self.t * 2, self.t + 1])
+            if self.t == 0:
+                self.t = Fraction(1, 2)
+
+    def change_coeff(self, key, how, fresh=False):
+        t = self.pool[key]
+        co = unrat(t["coeff"][0])
+        new = dict(t)
+        if how == "nudge":
+            new["coeff"] = [rat(co + self.rng.choice([1, -1, 2]) * NUDGE), 0]
+        elif how == "negate":
+            new["coeff"] = [rat(-co), 0]
+        elif how == "hash":
+            new["coeff"] = [-2 if co == -1 else -1, 0]
+        elif how == "imag":
+            new["coeff"] = [rat(co), rat(self.rng.choice([Fraction(1, 2), Fraction(-1, 4), Fraction(1, 10 ** 3)]))]
+            new["ctype"] = "complex"
+        elif how == "real":
+            new["coeff"] = [rat(co), 0]
+        elif how == "zero":
+            new["coeff"] = [0, 0]
+        if new["ctype"] == "int" and unrat(new["coeff"][0]).denominator != 1:
+            new["ctype"] = "float"
+        if fresh:
+            k = self.new_term(new["ops"], 0, new["ctype"])
+            self.pool[k]["coeff"] = new["coeff"]
+            self.listing = [k if x == key else x for x in self.listing]
+            self.relisted()
+            return k
+        self.pool[key] = new
+        return key
+
+    def change_order(self):
+        if len(self.listing) >= 2:
+            i, j = self.rng.sample(range(len(self.listing)), 2)
+            self.listing[i], self.listing[j] = self.listing[j], self.listing[i]
+            self.relisted()
+
+    def add_term(self):
+        r = self.rng
+        if self.listing and r.random() < 0.4:
+            k = r.choice(self.listing)            # the same OBJECT listed once more
+        else:
+            k = self.new_term(_rand_ops(r, self.n), _dyadic(r, -3, 3, 4), "float")
+        self.listing.insert(r.randrange(len(self.listing) + 1), k)
+        self.relisted()
+
+    def drop_term(self):
+        if len(self.listing) >= 2:
+            self.listing.pop(self.rng.randrange(len(self.listing)))
+            self.relisted()
+
+    def random_change(self):
+        r = self.rng
+        x = r.random()
+        if x < 0.2:
+            self.change_time(hashy=self.t in (-1, -2) and r.random() < 0.5)
+        elif x < 0.3:
+            self.steps = max(1, self.steps + r.choice([-1, 1, 1]))
+        elif x < 0.6 and self.listing:
+            self.change_coeff(r.choice(self.listing), r.choice(["nudge", "nudge", "negate", "real", "zero"]), fresh=r.random() < 0.3)
+        elif x < 0.75:
+            self.change_order()
+        elif x < 0.85:
+            self.add_term()
+        elif x < 0.9:
+            self.drop_term()
+        # else: the identical call once more
+
+
+def _history(rng, scenario, big):
+    r = rng
+    n = r.choice([1, 2, 2, 3])
+    h = _Hist(r, n, r.randrange(2, 4))
+    anykey = lambda: r.choice(h.listing)
+    if scenario == "time_hash":
+        h.t = Fraction(r.choice([-1, -2]))
+        h.steps = r.choice([1, 1, 2])
+        k = anykey()
+        h.call("term", key=k)
+        h.call("sum")
+        h.change_time(hashy=True)
+        h.call("term", key=k)
+        h.call("sum")
+    elif scenario in ("coeff_nudge_same", "coeff_nudge_fresh"):
+        h.t = _dyadic(r, 1, 3, 4) * r.choice([1, -1, 8])
+        k = anykey()
+        h.call("term", key=k)
+        h.call("sum")
+        k = h.change_coeff(k, "nudge", fresh=scenario.endswith("fresh"))
+        h.call("term", key=k)
+        h.call("sum")
+    elif scenario == "coeff_imag_same":
+        k = anykey()
+        h.call("term", key=k)
+        h.call("sum")
+        h.change_coeff(k, "imag")
+        h.call("term", key=k)
+        h.call("sum")
+        h.change_coeff(k, "real")
+        h.call(r.choice(["term", "sum"]), key=k)
+    elif scenario == "steps":
+        h.call("sum")
+        h.steps += 1
+        h.call("sum")
+        h.call("deriv")
+        h.steps = max(1, h.steps - 1)
+        h.call("deriv")
+    elif scenario == "order":
+        h.steps = r.randrange(1, 3)
+        h.call("sum")
+        h.change_order()
+        h.call("sum")
+        h.change_order()
+        h.call(r.choice(["sum", "deriv"]))
+    elif scenario == "deriv_time":
+        h.steps = r.randrange(2, 4)
+        h.call("deriv")
+        h.change_time()
+        h.call("deriv")
+    elif scenario == "deriv_coeff":
+        h.steps = r.randrange(2, 4)
+        h.call("deriv")
+        h.change_coeff(anykey(), r.choice(["negate", "nudge", "negate"]))
+        h.call("deriv")
+        # the single step of the same (now changed) Hamiltonian, as the derivative code asks for it
+        h.t, h.steps = h.t / h.steps, 1
+        h.call("sum")
+    elif scenario == "result_mut_term":
+        k = anykey()
+        h.call("term", key=k, mut=r.choice(["append", "clear", "reverse"]))
+        h.call("term", key=k)
+        h.call("sum", mut=r.choice(["append", "clear"]))
+        h.call("term", key=k)
+    elif scenario == "result_mut_sum":
+        h.call("sum", mut=r.choice(["append", "clear", "reverse"]))
+        h.call("sum")
+        h.call("term", key=anykey())
+    elif scenario == "result_mut_deriv":
+        h.steps = r.randrange(1, 3)
+        h.call("deriv", mut=r.choice(["append", "clear", "reverse"]))
+        h.call("deriv")
+        h.call("sum")
+    elif scenario == "add_drop":
+        h.call("sum")
+        h.add_term()
+        h.call("sum")
+        h.drop_term()
+        h.call(r.choice(["sum", "deriv"]))
+    elif scenario == "coeff_hash":
+        k = anykey()
+        h.pool[k]["coeff"] = [r.choice([-1, -2]), 0]
+        h.pool[k]["ctype"] = r.choice(["int", "float"])
+        h.call("term", key=k)
+        h.call("sum")
+        k = h.change_coeff(k, "hash", fresh=r.random() < 0.5)
+        h.call("term", key=k)
+        h.call("sum")
+    elif scenario == "pauli_swap":
+        # same qubits, same coefficient, same time: only the Pauli letters differ (necessarily another object)
+        k = anykey()
+        h.call("term", key=k)
+        h.call("sum")
+        src = h.pool[k]
+        while True:
+            ops = [[q, r.choice(PAULIS)] for q, _ in src["ops"]]
+            if ops != src["ops"]:
+                break
+        k2 = h.new_term(ops, unrat(src["coeff"][0]), src["ctype"])
+        h.listing = [k2 if x == k else x for x in h.listing]
+        h.relisted()
+        h.call("term", key=k2)
+        h.call("sum")
+    elif scenario == "ising_flag":
+        # an all-Z Hamiltonian (PauliSum.is_ising is remembered on the object) that then receives an X / Y term
+        for k in h.listing:
+            h.pool[k]["ops"] = [[q, "Z"] for q, _ in h.pool[k]["ops"]]
+        h.steps = r.randrange(2, 4)
+        h.call("sum")
+        h.call("deriv")
+        q = r.randrange(n)
+        k2 = h.new_term([[q, r.choice("XY")]] + ([[(q + 1) % n, "Z"]] if n > 1 and r.random() < 0.5 else []), _dyadic(r, -3, 3, 4), "float")
+        h.listing.insert(r.randrange(len(h.listing) + 1), k2)
+        h.relisted()
+        h.call("sum")
+        h.call("deriv")
+    else:  # mixed: the terms on their own, then inside the sum, then the derivative
+        for k in h.listing[:2]:
+            h.call("term", key=k)
+        h.call("sum")
+        h.call("deriv")
+    # ---- a random tail: each call differs from the previous one in (at most) one component
+    for _ in range(r.randrange(1, 4)):
+        h.random_change()
+        kind = r.choice(["term", "sum", "sum", "deriv"] if n < 3 else ["term", "sum", "sum"])
+        h.call(kind, mut=r.choice([None, None, None, "append", "clear"]))
+    return {"kind": "hist", "calls": h.calls}
+
+
 def corpus():
     zx = [[0, "Z"], [1, "X"]]
+    z0 = {"ops": [[0, "Z"]], "coeff": [1, 0], "ctype": "float", "key": 0}
+    x0 = {"ops": [[0, "X"]], "coeff": ["1/2", 0], "ctype": "float", "key": 1}
+    obs1, psi1 = [[[1, 0], [0, 1]], [[0, -1], [-1, 0]]], [[1, 0], [1, 1]]
     return [
         # F10 (fixed ce4fdcc): a negative imaginary part passed the guard `imag > 1e-9`
         {"kind": "term", "ops": [[0, "Z"]], "coeff": [1, -1], "ctype": "complex", "t": 1, "base": None, "n": 1},
@@ -586,7 +1432,7 @@ def corpus():
          "psi": [[1, 0], [0, 0], [0, 0], [0, 0]]},
         # derivative with a constant term (its two circuits cancel) and a single step
         {"kind": "deriv", "terms": [{"ops": [[0, "Y"]], "coeff": [1, 0], "ctype": "float"}, {"ops": [], "coeff": [2, 0], "ctype": "float"}],
-         "t": 1, "steps": 1, "base": ["3/5", "4/5"], "n": 1, "obs": [[[1, 0], [0, 1]], [[0, -1], [-1, 0]]], "psi": [[1, 0], [1, 1]]},
+         "t": 1, "steps": 1, "base": ["3/5", "4/5"], "n": 1, "obs": obs1, "psi": psi1},
         # zero coefficient (fixed 9211baa: np.pi / (4.0 * r) raised ZeroDivisionError): the term is skipped, the
         # derivative identity must still hold; a regression is reported with signature derivative-zero-coefficient
         {"kind": "deriv", "terms": [{"ops": [[0, "Z"]], "coeff": [0, 0], "ctype": "float"}],
@@ -597,7 +1443,7 @@ def corpus():
          "obs": [[[1, 0], [0, 1], [0, 0], [2, 0]], [[0, -1], [-1, 0], [1, 1], [0, 0]], [[0, 0], [1, -1], [1, 0], [0, 0]], [[2, 0], [0, 0], [0, 0], [-1, 0]]],
          "psi": [[1, 0], [0, 1], [1, 1], [0, 0]]},
         {"kind": "deriv", "terms": [{"ops": [], "coeff": [0, 0], "ctype": "float"}, {"ops": [[0, "Y"]], "coeff": [0, 0], "ctype": "int"}],
-         "t": 1, "steps": 3, "base": ["3/5", "4/5"], "n": 1, "obs": [[[1, 0], [0, 1]], [[0, -1], [-1, 0]]], "psi": [[1, 0], [1, 1]]},
+         "t": 1, "steps": 3, "base": ["3/5", "4/5"], "n": 1, "obs": obs1, "psi": psi1},
         # purely imaginary coefficient, one step: the code evaluates no guard and returns no circuits (out of the real domain)
         {"kind": "deriv", "terms": [{"ops": [[0, "Z"]], "coeff": [0, 1], "ctype": "complex"}],
          "t": 1, "steps": 1, "base": None, "n": 1, "obs": [[[1, 0], [0, 0]], [[0, 0], [-1, 0]]], "psi": [[1, 0], [0, 0]]},
@@ -606,6 +1452,48 @@ def corpus():
         {"kind": "sum", "terms": [], "t": 1, "steps": 2, "base": None, "n": 1},
         {"kind": "seq", "rep": [["H", None, [0]]], "diff": [["CNOT", None, [0, 1]]], "length": 2, "position": 2},
         {"kind": "seq", "rep": [["H", None, [0]]], "diff": [["CNOT", None, [0, 1]]], "length": 3, "position": 0},
+        # ---- shapes that a shortcut, a cache or a tolerance could treat differently
+        # times -1 and -2 have the same hash; so have coefficients -1 and -2
+        {"kind": "hist", "calls": [dict(z0, kind="term", t=-1, base=None, n=1), dict(z0, kind="term", t=-2, base=None, n=1),
+                                   dict(z0, kind="term", t=-2, base=None, n=1, coeff=[-1, 0]), dict(z0, kind="term", t=-2, base=None, n=1, coeff=[-2, 0])]},
+        # a coefficient changed by 2^-23 on the same object / an imaginary part given to an object that was accepted before
+        {"kind": "hist", "calls": [dict(x0, kind="term", t=8, base=None, n=1), dict(x0, kind="term", t=8, base=None, n=1, coeff=["4194305/8388608", 0]),
+                                   dict(x0, kind="term", t=8, base=None, n=1, coeff=["1/2", "1/2"], ctype="complex"),
+                                   dict(x0, kind="term", t=8, base=None, n=1)]},
+        # the same PauliSum: other time, other step count, terms swapped in place, result modified by the caller
+        {"kind": "hist", "calls": [
+            {"kind": "deriv", "terms": [z0, x0], "t": "1/2", "steps": 2, "base": None, "n": 1, "hkey": 0, "obs": obs1, "psi": psi1, "mut": "clear"},
+            {"kind": "deriv", "terms": [z0, x0], "t": "3/4", "steps": 2, "base": None, "n": 1, "hkey": 0, "obs": obs1, "psi": psi1},
+            {"kind": "sum", "terms": [z0, x0], "t": "3/4", "steps": 3, "base": None, "n": 1, "hkey": 0, "mut": "append"},
+            {"kind": "sum", "terms": [x0, z0], "t": "3/4", "steps": 3, "base": None, "n": 1, "hkey": 0, "hmut": "inplace"},
+            {"kind": "deriv", "terms": [x0, dict(z0, coeff=[-1, 0])], "t": "3/4", "steps": 2, "base": None, "n": 1, "hkey": 0, "obs": obs1, "psi": psi1},
+            {"kind": "sum", "terms": [x0, dict(z0, coeff=[-1, 0])], "t": "3/8", "steps": 1, "base": None, "n": 1, "hkey": 0}]},
+        # two-digit qubit indices, insertion order 12, 2, 10 (as strings: "10" < "12" < "2"; as a set: 2, 10, 12 or not)
+        {"kind": "term", "ops": [[12, "X"], [2, "Y"], [10, "Z"]], "coeff": ["3/4", 0], "ctype": "float", "t": "5/8", "base": None, "n": 13, "active": [2, 10, 12]},
+        {"kind": "term", "ops": [[8, "Y"], [1, "X"]], "coeff": ["-1/2", 0], "ctype": "float", "t": "5/8", "base": None, "n": 9, "active": [1, 8]},
+        # a large real part next to an imaginary part that is small only relative to it
+        {"kind": "term", "ops": [[0, "X"]], "coeff": [1048576, "1/10000"], "ctype": "complex", "t": "1/1048576", "base": None, "n": 1},
+        {"kind": "term", "ops": [[0, "Z"], [1, "Y"]], "coeff": [5000, "1/50"], "ctype": "complex", "t": "1/1024", "base": None, "n": 2},
+        # tiny coefficient, long time (t·c = 3/4); huge coefficient, short time
+        {"kind": "term", "ops": [[0, "X"], [1, "Z"]], "coeff": ["3/4294967296", 0], "ctype": "float", "t": 1073741824, "base": None, "n": 2},
+        {"kind": "term", "ops": [[0, "Y"]], "coeff": [3221225472, 0], "ctype": "float", "t": "1/4294967296", "base": None, "n": 1},
+        # integer / symbolic time that the step count does not divide; a bare PauliTerm as the Hamiltonian; nine steps
+        {"kind": "sum", "terms": [{"ops": [[0, "X"]], "coeff": [1, 0], "ctype": "float"}, {"ops": [[0, "Z"]], "coeff": ["1/2", 0], "ctype": "float"}],
+         "t": 3, "steps": 2, "base": None, "n": 1, "ttype": "int"},
+        {"kind": "sum", "terms": [{"ops": [[0, "X"]], "coeff": [1, 0], "ctype": "float"}, {"ops": [[0, "Z"]], "coeff": ["1/2", 0], "ctype": "float"}],
+         "t": "3/4", "steps": 3, "base": None, "n": 1, "ttype": "symbol"},
+        {"kind": "sum", "terms": [{"ops": zx, "coeff": ["1/2", 0], "ctype": "float"}], "t": 3, "steps": 3, "base": ["3/5", "4/5"], "n": 2, "as_term": True},
+        {"kind": "sum", "terms": [{"ops": [[0, "X"]], "coeff": [1, 0], "ctype": "float"}, {"ops": [[0, "Z"]], "coeff": ["1/2", 0], "ctype": "float"}],
+         "t": "9/8", "steps": 9, "base": None, "n": 1},
+        # the derivative at t = 0 (a falsy time) is not zero
+        {"kind": "deriv", "terms": [{"ops": [[0, "X"]], "coeff": [1, 0], "ctype": "float"}, {"ops": [[0, "Z"]], "coeff": ["1/2", 0], "ctype": "float"}],
+         "t": 0, "steps": 2, "base": None, "n": 1, "obs": obs1, "psi": psi1, "ttype": "int"},
+        # A, B, A with B not commuting with A; all coefficients tiny
+        {"kind": "deriv", "terms": [{"ops": [[0, "X"]], "coeff": [1, 0], "ctype": "float"}, {"ops": [[0, "Z"]], "coeff": ["1/2", 0], "ctype": "float"},
+                                    {"ops": [[0, "X"]], "coeff": [1, 0], "ctype": "float"}],
+         "t": "3/4", "steps": 2, "base": None, "n": 1, "obs": obs1, "psi": psi1},
+        {"kind": "deriv", "terms": [{"ops": [[0, "X"]], "coeff": ["3/536870912", 0], "ctype": "float"}, {"ops": [[0, "Z"]], "coeff": ["-1/268435456", 0], "ctype": "float"}],
+         "t": "3/4", "steps": 2, "base": None, "n": 1, "obs": obs1, "psi": psi1},
     ]
 
 
@@ -677,8 +1565,35 @@ def generate(rng, tier):
             t["ctype"] = "complex"
         cases.append(h)
     # ---- _generate_circuit_sequence
-    for _ in range(60 if big else 12):
-        cases.append(_seq_case(rng))
+    for i in range(60 if big else 12):
+        s = _seq_case(rng)
+        if i % 4 == 3:
+            s["alias"] = True                       # the SAME Circuit object as repeated and as different circuit
+        if i % 6 == 5:
+            s["length"], s["position"] = 64 + rng.randrange(0, 8), rng.randrange(0, 70)
+        cases.append(s)
+    # ==== streams for shapes that shortcuts, caches and tolerances treat differently ====
+    # ---- extreme magnitudes; high / two-digit qubit indices; the time as int / numpy / sympy number / Symbol
+    for _ in range(40 if big else 6):
+        cases.append(_magnitude_term(rng))
+    for _ in range(40 if big else 8):
+        cases.append(_high_index_term(rng))
+    for _ in range(50 if big else 8):
+        n = rng.randrange(1, 4)
+        cases.append(_typed_time(rng, _term_case(rng, _rand_ops(rng, n), n, exact=rng.random() < 0.3)))
+    for _ in range(16 if big else 3):
+        n = rng.randrange(1, 4)
+        cases.append(_typed_coeff(rng, _term_case(rng, _rand_ops(rng, n), n, exact=False)))
+    for _ in range(30 if big else 8):
+        cases.append(_big_real_imag_term(rng))
+    # ---- special Hamiltonian shapes (each shape occurs in every run)
+    for i in range(4 * len(SUM_SHAPES) if big else len(SUM_SHAPES)):
+        cases.append(_variant_sum(rng, i, big))
+    for i in range(3 * len(DERIV_SHAPES) if big else len(DERIV_SHAPES)):
+        cases.append(_variant_deriv(rng, i))
+    # ---- histories on shared objects (each scenario occurs in every run)
+    for i in range(6 * len(SCENARIOS) if big else 2 * len(SCENARIOS)):
+        cases.append(_history(rng, SCENARIOS[i % len(SCENARIOS)], big))
     return cases
 
 
@@ -694,13 +1609,29 @@ def nontrivial(c):
         return c["steps"] >= 2 and any(_heavy(t["ops"]) for t in c["terms"])
     if k == "seq":
         return c["length"] >= 2 and c["position"] < c["length"]
+    if k == "hist":
+        def sub(s):
+            return _heavy(s["ops"]) if s["kind"] == "term" else any(_heavy(t["ops"]) for t in s["terms"])
+        return sum(1 for s in c["calls"] if sub(s)) >= 2
     return False
 
 
 def distribution(cases, outs):
-    rej = sum(1 for o in outs if isinstance(o, dict) and o.get("err"))
-    widths, weights, steps, nterms = {}, {}, {}, {}
-    for c in cases:
+    rej = 0
+    widths, weights, steps, nterms, ttypes, hist_calls = {}, {}, {}, {}, {}, 0
+    flat, flat_outs = [], []
+    for c, o in zip(cases, outs):
+        if c["kind"] == "hist":
+            hist_calls += len(c["calls"])
+            flat += c["calls"]
+            flat_outs += o.get("calls", []) if isinstance(o, dict) else []
+        else:
+            flat.append(c)
+            flat_outs.append(o)
+    for o in flat_outs:
+        if isinstance(o, dict) and o.get("err"):
+            rej += 1
+    for c in flat:
         if "n" in c:
             widths[c["n"]] = widths.get(c["n"], 0) + 1
         if c["kind"] == "term":
@@ -708,7 +1639,11 @@ def distribution(cases, outs):
         if c["kind"] in ("sum", "deriv"):
             steps[c["steps"]] = steps.get(c["steps"], 0) + 1
             nterms[len(c["terms"])] = nterms.get(len(c["terms"]), 0) + 1
+        if c["kind"] != "seq":
+            tt = c.get("ttype", "float")
+            ttypes[tt] = ttypes.get(tt, 0) + 1
     return {"rejected_requests": rej, "register_widths": widths, "term_weights": weights, "n_steps": steps,
-            "hamiltonian_sizes": nterms,
-            "exact_matrix_comparisons": sum(1 for c in cases if c.get("base") is not None),
-            "max_circuits_in_a_derivative": max([len(o.get("circuits", [])) for o in outs if isinstance(o, dict)] + [0])}
+            "hamiltonian_sizes": nterms, "time_types": ttypes, "calls_inside_histories": hist_calls,
+            "calls_followed_by_caller_modifying_the_result": sum(1 for c in flat if c.get("mut")),
+            "exact_matrix_comparisons": sum(1 for c in flat if c.get("base") is not None and c.get("active") is None),
+            "max_circuits_in_a_derivative": max([len(o.get("circuits", [])) for o in flat_outs if isinstance(o, dict)] + [0])}
